@@ -125,8 +125,16 @@ def check_queues(ctx, ex):
                             if stmt in b:
                                 blk = b
                         if blk is not None:
+                            # the scan is left (break / return) before the list or the index is looked at again: the statements in
+                            # between may set a result flag, log, ... but mention neither
                             i = blk.index(stmt)
-                            ok = i + 1 < len(blk) and isinstance(blk[i + 1], ast.Break)
+                            idx_name = call.args[0].id
+                            for later in blk[i + 1:]:
+                                if isinstance(later, (ast.Break, ast.Return)):
+                                    ok = True
+                                    break
+                                if any((isinstance(x, ast.Name) and x.id == idx_name) or A.is_self_attr(x, PEND) for x in ast.walk(later)) or isinstance(later, (ast.For, ast.While, ast.If, ast.Try, ast.With)):
+                                    break
                 elif p.attr in ("insert", "remove", "clear", "extend", "sort", "reverse"):
                     ok, form = False, src(call).replace("self.", "")
             elif isinstance(p, ast.Call) and dotted(p.func) in ("len", "enumerate") and p.args and p.args[0] is n and len(p.args) == 1:
@@ -228,26 +236,43 @@ def check_keys(ctx, ex):
     peeks = [A.norm(A.expand(n, defs)) for n in A.body_nodes(fn) if isinstance(n, ast.Subscript) and isinstance(n.slice, ast.Constant) and n.slice.value == 0]
     ok = any("requests[" in p and "[0]" in p for p in peeks)
     ctx.check("C12.K", "_extract_epr_info:oldest-request-under-key", ok, "the consumer does not take requests[request_key][0]", repo.loc(m, fn), trivial=True)
-    # role selection
+    # role selection: executed abstractly (nqsa/circuit.py) for a response of either directionality, on an executor that has one
+    # outstanding request under the response's key in each of the two dictionaries: the request returned comes from the create
+    # dictionary exactly when this node is the creator (as get_creator_node_id decides), and the role flag returned says the same
+    from .. import circuit as C
+
+    class _Log:
+        _nqsa_model = True
+
+        def debug(self, *a_, **k_):
+            return None
+        info = warning = error = debug
+
     role = {}
-    for st in fn.body:
-        if isinstance(st, ast.If) and isinstance(st.test, ast.Compare) and "creator_node_id" in A.norm(st.test):
-            eq = isinstance(st.test.ops[0], ast.Eq)
-            for pol, blk in ((True, st.body), (False, st.orelse)):
-                flag = dic = None
-                for s2 in blk:
-                    if isinstance(s2, ast.Assign) and isinstance(s2.targets[0], ast.Name):
-                        if s2.targets[0].id == "is_creator" and isinstance(s2.value, ast.Constant):
-                            flag = s2.value.value
-                        if A.is_self_attr(s2.value) and s2.value.attr in REQ:
-                            dic = s2.value.attr
-                role[pol == eq] = (flag, dic)
+    try:
+        qc = repo.module("netqasm.qlink_compat")
+        gcn = qc.functions.get("get_creator_node_id")
+        for flag in (0, 1):
+            created, received = C.Obj(None, {"tot_pairs": 3, "pairs_left": 2, "tag": "create"}), C.Obj(None, {"tot_pairs": 5, "pairs_left": 1, "tag": "recv"})
+            resp = C.Obj(None, {"directionality_flag": flag, "remote_node_id": 2, "purpose_id": 7})
+            o = C.object_from_init(repo, ex, {"node_id": 11, "_logger": _Log(), "_epr_create_requests": {(2, 7): [created]}, "_epr_recv_requests": {(2, 7): [received]}}, kind="self")
+            out = C.Interp(repo, ctx.ev, C.Scenario(), ex).call_function(m, fn, [resp], {}, self_obj=o)
+            creator = C.Interp(repo, ctx.ev, C.Scenario(), None).call_function(qc, gcn, [11, resp], {}) if gcn is not None else None
+            we_create = creator == 11
+            if isinstance(out, tuple) and len(out) == 4:
+                role[we_create] = (out[2], "_epr_create_requests" if out[0] is created else "_epr_recv_requests" if out[0] is received else repr(out[0]))
+            else:
+                role[we_create] = ("?", repr(out))
+    except C.EvalRaise as ex_:
+        role = {"raises": str(ex_)}
+    except AnalysisError as ex_:
+        ctx.error("C12.D", f"_extract_epr_info cannot be evaluated: {ex_}")
+        role = None
     exp = {True: (True, "_epr_create_requests"), False: (False, "_epr_recv_requests")}
-    ctx.check("C12.D", "_extract_epr_info:role-selects-dictionary", role == exp,
-              f"when the creator is this node: {role.get(True)}, otherwise: {role.get(False)}; expected (True, create requests) / (False, recv requests)", repo.loc(m, fn),
-              sample={"creator==self": role.get(True), "else": role.get(False)})
-    cmp_ok = "creator_node_id" in defs and A.norm(defs["creator_node_id"]).startswith("get_creator_node_id(self.node_id,")
-    ctx.check("C12.D", "_extract_epr_info:creator-from-response", cmp_ok, "creator id is not obtained with get_creator_node_id(self.node_id, response)", repo.loc(m, fn), trivial=True)
+    if role is not None:
+        ctx.check("C12.D", "_extract_epr_info:role-selects-dictionary", role == exp,
+                  f"when the creator is this node: {role.get(True)}, otherwise: {role.get(False)}; expected (True, create requests) / (False, recv requests)", repo.loc(m, fn),
+                  sample={"creator==self": role.get(True), "else": role.get(False)})
     check_role_flag(ctx)
     # retire
     hl = ex.methods.get("_handle_last_epr_pair")
@@ -312,11 +337,12 @@ def check_accounting(ctx, ex):
         raise AnalysisError("_handle_pending_epr_responses not found")
     ctx.fn("Executor._handle_pending_epr_responses")
     blk = None
+    # the block that accounts for a consumed response: the innermost `if` whose own body decrements pairs_left
     for n in ast.walk(fn):
-        if isinstance(n, ast.If) and A.norm(n.test) == "handled" and any(isinstance(x, ast.AugAssign) for x in n.body):
+        if isinstance(n, ast.If) and any(isinstance(x, ast.AugAssign) and A.norm(x.target).endswith(".pairs_left") for x in n.body):
             blk = n
     if blk is None:
-        ctx.error("C12.A", "`if handled:` accounting block not found")
+        ctx.error("C12.A", "the block accounting for a consumed response (pairs_left -= 1) was not found")
         return
     events = []
     for st in blk.body:
@@ -420,56 +446,266 @@ def check_busy(ctx, ex, rule="C12.B"):
     last = rets[-1].value if rets else None
     ok = last is not None and A.norm(last).endswith("isnotNone") and "unit_module[virtual_address]" in A.norm(last)
     ctx.check(rule, "_has_virtual_address:slot-occupied-test", ok, f"_has_virtual_address ends with `{src(last) if last is not None else None}`; expected unit_module[virtual_address] is not None", repo.loc(m, hv))
-    # virtual address of the pair
-    d = A.single_defs(fn)
-    ok = "virtual_address" in d and A.norm(d["virtual_address"]) == "self._get_virtual_address_from_epr_data(epr_cmd_data,pair_index,app_id)"
-    ctx.check(rule, "_handle_epr_ok_k_response:virtual-address-of-pair", ok, "the virtual address is not the request's entry for this pair index", repo.loc(m, fn), trivial=True)
-    # handled result is the value returned by the handler; unhandled responses stay queued
-    hp = ex.methods["_handle_pending_epr_responses"]
-    ok = any(isinstance(n, ast.Assign) and A.norm(n.targets[0]) == "handled" and isinstance(n.value, ast.Call) and "_epr_response_handlers[response.type]" in A.norm(n.value.func) for n in ast.walk(hp))
-    ctx.check(rule, "_handle_pending_epr_responses:handled-is-handler-result", ok, "`handled` is not the boolean returned by the type-specific response handler", repo.loc(m, hp))
+    # the keep-response handler is executed abstractly (nqsa/circuit.py): the virtual qubit it maps is the one stored at position
+    # <pair index> of the request's own qubit array (read for the request's application), the physical one is the delivered one;
+    # with that virtual qubit still allocated nothing is mapped and the response is reported as not handled
+    from .. import circuit as C
+    import re as _re
+
+    class _Log:
+        _nqsa_model = True
+
+        def debug(self, *a_, **k_):
+            return None
+        info = warning = error = debug
+
+    def parse_address(text):
+        m_ = _re.fullmatch(r"@(-?\d+)\[(-?\d+)\]", text if isinstance(text, str) else "")
+        if m_ is None:
+            raise AnalysisError(f"modelled parse_address: unexpected text {text!r}")
+        ent = repo.get_class("netqasm.lang.operand", "ArrayEntry")
+        adr = repo.get_class("netqasm.lang.operand", "Address")
+        return C.Obj(ent, {"address": C.Obj(adr, {"address": int(m_.group(1))}), "index": int(m_.group(2))})
+
+    ok_va, why = True, ""
+    try:
+        for busy in (False, True):
+            for pair_index in (0, 2):
+                reads, allocs = [], []
+                sc = C.Scenario()
+                sc.overrides["parse_address"] = parse_address
+                # entry k of qubit array 6 of application 1 holds virtual qubit k + 1 (application 0 holds other values)
+
+                def get_entry(app_id=None, array_entry=None, reads=reads):
+                    reads.append((app_id, array_entry.fields["address"].fields["address"], array_entry.fields["index"]))
+                    return array_entry.fields["index"] + 1 if app_id == 1 else 0
+
+                sc.overrides["_get_array_entry"] = get_entry
+                sc.overrides["_allocate_physical_qubit"] = lambda subroutine_id=None, virtual_address=None, physical_address=None, allocs=allocs: allocs.append((subroutine_id, virtual_address, physical_address))
+                um = [None, None, None, None]
+                if busy:
+                    um[pair_index + 1] = 3
+                used = {3} if busy else set()
+                o = C.object_from_init(repo, ex, {"_logger": _Log(), "_qubit_unit_modules": {0: [None] * 4, 1: um}, "_used_physical_qubit_addresses": used,
+                                                  "_subroutines": {4: C.Obj(None, {"app_id": 1}), 5: C.Obj(None, {"app_id": 0})}}, kind="self")
+                req = C.Obj(None, {"subroutine_id": 4, "q_array_address": 6, "ent_results_array_address": 8, "tot_pairs": 3, "pairs_left": 3 - pair_index})
+                resp = C.Obj(None, {"logical_qubit_id": 2})
+                out = C.Interp(repo, ctx.ev, sc, ex).call_function(m, fn, [], {"epr_cmd_data": req, "response": resp, "pair_index": pair_index}, self_obj=o)
+                if busy:
+                    if out is not False or allocs or used != {3}:
+                        ok_va, why = False, f"virtual qubit {pair_index + 1} still allocated: returns {out!r}, allocations {allocs}, in-use set {sorted(used)}"
+                else:
+                    if out is not True or allocs != [(4, pair_index + 1, 2)] or (1, 6, pair_index) not in reads:
+                        ok_va, why = False, f"pair {pair_index}: returns {out!r}, maps {allocs}, read {reads}; expected virtual qubit {pair_index + 1} (entry {pair_index} of array 6 of application 1) -> physical 2"
+    except C.EvalRaise as ex_:
+        ok_va, why = False, f"raises {ex_}"
+    except AnalysisError as ex_:
+        ctx.error(rule, f"_handle_epr_ok_k_response cannot be evaluated: {ex_}")
+    ctx.check(rule, "_handle_epr_ok_k_response:virtual-address-of-pair", ok_va, f"the keep-response does not map the request's entry for this pair index (or does not defer while that virtual qubit is allocated): {why}", repo.loc(m, fn), trivial=True)
+    check_consumption(ctx, ex, rule)
+
+
+def check_consumption(ctx, ex, rule="C12.B"):
+    """The consumption loop (_handle_pending_epr_responses) is executed abstractly over every list of up to three pending responses
+    whose outcome is one of: no request outstanding / the handler defers (returns False) / handled.  Required: responses are tried
+    in arrival order; the first that can be handled is consumed - its request's pairs_left is decremented, the retirement test sees
+    the decremented value, the entanglement info is stored under the pair index computed before the decrement, exactly that response
+    is removed - and the scan starts again; what cannot be handled stays queued in order; when nothing can be handled the executor
+    waits."""
+    from .. import circuit as C
+    import itertools
+    repo = ctx.repo
+    m = ex.module
+    r_ = repo.lookup(ex, "_handle_pending_epr_responses")
+    if r_ is None:
+        raise AnalysisError("_handle_pending_epr_responses not found")
+    fn = r_[1]
+    ctx.fn("Executor._handle_pending_epr_responses")
+    rt = repo.get_class("netqasm.qlink_compat", "ReturnType")
+    from ..model import EnumMember
+    ok_k = EnumMember(rt.qualname, "OK_K", ctx.ev.enum_members(rt)["OK_K"])
+
+    class _Log:
+        _nqsa_model = True
+
+        def debug(self, *a_, **k_):
+            return None
+        info = warning = error = debug
+
+    results = {"handled": True, "order": True, "account": True, "wait": True}
+    why = {}
+    try:
+        for n_resp in (0, 1, 2, 3):
+            for outcomes in itertools.product(("norequest", "defer", "handled"), repeat=n_resp):
+                resps = [C.Obj(None, {"type": ok_k, "tag": k}) for k in range(n_resp)]
+                oc = {id(r): o_ for r, o_ in zip(resps, outcomes)}
+                reqs = {id(r): C.Obj(None, {"tot_pairs": 3, "pairs_left": 2, "tag": k}) for k, r in enumerate(resps)}
+                log = []
+                sc = C.Scenario()
+
+                def extract(response=None, *a_):
+                    response = response if response is not None else a_[0]
+                    if oc[id(response)] == "norequest":
+                        return None
+                    q = reqs[id(response)]
+                    return (q, q.fields["tot_pairs"] - q.fields["pairs_left"], True, ("key", response.fields["tag"]))
+
+                def handler(epr_cmd_data=None, response=None, pair_index=None):
+                    log.append(("try", response.fields["tag"]))
+                    return oc[id(response)] == "handled"
+
+                sc.overrides["_extract_epr_info"] = extract
+                sc.overrides["_handle_last_epr_pair"] = lambda epr_cmd_data=None, is_creator=None, request_key=None: log.append(("retire-test", epr_cmd_data.fields["tag"], epr_cmd_data.fields["pairs_left"], request_key))
+                sc.overrides["_store_ent_info"] = lambda epr_cmd_data=None, response=None, pair_index=None: log.append(("store", response.fields["tag"], epr_cmd_data.fields["tag"], pair_index))
+                sc.overrides["_wait_to_handle_epr_responses"] = lambda: log.append(("wait",))
+                sc.overrides["_handle_epr_err_response"] = lambda *a_, **k_: log.append(("err",))
+                pending = list(resps)
+                o = C.object_from_init(repo, ex, {"_logger": _Log(), "_pending_epr_responses": pending, "_epr_response_handlers": {C.Interp(repo, ctx.ev, sc, ex)._hashable(ok_k): handler}}, kind="self")
+                C.Interp(repo, ctx.ev, sc, ex).call_function(m, fn, [], {}, self_obj=o)
+                # reference behaviour
+                want_left = [r for r in resps if oc[id(r)] != "handled"]
+                left_now = o.fields["_pending_epr_responses"]
+                case = f"responses {list(outcomes)}"
+                if [id(x) for x in left_now] != [id(x) for x in want_left]:
+                    results["handled"] = False
+                    why["handled"] = f"{case}: left pending {[x.fields['tag'] for x in left_now]}, expected {[x.fields['tag'] for x in want_left]}"
+                for r in resps:
+                    k = r.fields["tag"]
+                    if oc[id(r)] == "handled":
+                        q = reqs[id(r)]
+                        ev_ = [e for e in log if e[0] in ("retire-test", "store") and (e[1] == k)]
+                        if q.fields["pairs_left"] != 1 or ("retire-test", k, 1, ("key", k)) not in log or ("store", k, k, 1) not in log or len(ev_) != 2:
+                            results["account"] = False
+                            why["account"] = f"{case}: response {k}: pairs_left {q.fields['pairs_left']} (was 2), events {ev_}; expected one decrement, then the retirement test seeing 1, and the info stored for pair 1"
+                    elif reqs[id(r)].fields["pairs_left"] != 2:
+                        results["account"] = False
+                        why["account"] = f"{case}: the request of response {k} (not handled) was charged"
+                tries = [e[1] for e in log if e[0] == "try"]
+                # in every scan the responses are tried in arrival order: a later one is never tried before an earlier one that is still pending
+                pend = list(range(n_resp))
+                pos = 0
+                sim = []
+                while True:
+                    hit = None
+                    for k in pend:
+                        if outcomes[k] == "norequest":
+                            continue
+                        sim.append(k)
+                        if outcomes[k] == "handled":
+                            hit = k
+                            break
+                    if hit is None:
+                        break
+                    pend.remove(hit)
+                if tries != sim:
+                    results["order"] = False
+                    why["order"] = f"{case}: handlers tried for {tries}, expected {sim} (arrival order, restarting after each consumed response)"
+                if log.count(("wait",)) != (1 if want_left else 0):
+                    results["wait"] = False
+                    why["wait"] = f"{case}: waited {log.count(('wait',))} times"
+    except C.EvalRaise as ex_:
+        for k_ in results:
+            results[k_] = False
+            why[k_] = f"raises {ex_}"
+    except AnalysisError as ex_:
+        ctx.error(rule, f"_handle_pending_epr_responses cannot be evaluated: {ex_}")
+        return
+    ctx.check(rule, "_handle_pending_epr_responses:handled-is-handler-result", results["handled"] and results["order"],
+              f"a response is not consumed exactly when the type-specific handler reports it handled, in arrival order: {why.get('handled') or why.get('order')}", repo.loc(m, fn))
+    ctx.check(rule, "_handle_pending_epr_responses:accounting-per-consumed-response", results["account"],
+              f"a consumed response is not accounted for exactly once (decrement, then retirement test, info stored under the pair index computed before the decrement): {why.get('account')}", repo.loc(m, fn))
+    ctx.check(rule, "_handle_pending_epr_responses:waits-when-nothing-can-be-handled", results["wait"], f"the executor does not wait exactly once when responses stay pending that cannot be handled (and not at all when none stay): {why.get('wait')}", repo.loc(m, fn), trivial=True)
 
 
 def check_waits(ctx, ex):
+    """C12.W — "wait instructions resume only once the awaited entries are defined".  Each wait handler is executed abstractly
+    (nqsa/circuit.py; a generator is followed as straight-line code) against a modelled array in which entries become defined one
+    per poll: the handler must poll exactly until all (wait_all) / the first (wait_any) / the single (wait_single) awaited entry is
+    defined, and not once more."""
+    from .. import circuit as C
     repo = ctx.repo
     m = ex.module
+    opm = repo.module("netqasm.lang.operand")
+    ADDR, ENTRY, SLICE = (opm.classes[n_] for n_ in ("Address", "ArrayEntry", "ArraySlice"))
+
+    class _Log:
+        _nqsa_model = True
+
+        def debug(self, *a_, **k_):
+            return None
+        info = warning = error = debug
+
+    class Store:
+        """array store of one application: `schedule` lists the index that becomes defined at each poll"""
+        _nqsa_model = True
+
+        def __init__(self, cells):
+            self.cells = cells
+
+        def __getitem__(self, key):
+            address, index = key
+            return self.cells[index] if not isinstance(index, slice) else list(self.cells[index])
+
     exp = {"_instr_wait_all": "any", "_instr_wait_any": "all", "_instr_wait_single": "single"}
     for h, quant in exp.items():
-        fn = ex.methods.get(h)
-        if fn is None:
+        r_ = repo.lookup(ex, h)
+        if r_ is None:
             raise AnalysisError(f"{h} not found")
+        fn = r_[1]
         ctx.fn(f"Executor.{h}")
-        def kind_of(t):
-            """'any' / 'all' / 'single' when t is `any|all(v is None for v in values)` or `<name> is None`"""
-            if isinstance(t, ast.Call) and dotted(t.func) in ("any", "all") and len(t.args) == 1 and isinstance(t.args[0], ast.GeneratorExp):
-                g = t.args[0]
-                if isinstance(g.generators[0].target, ast.Name) and A.norm(g.elt) == f"{g.generators[0].target.id}isNone":
-                    return dotted(t.func), True
-            if isinstance(t, ast.Compare) and len(t.ops) == 1 and isinstance(t.left, ast.Name) and isinstance(t.comparators[0], ast.Constant) and t.comparators[0].value is None:
-                if isinstance(t.ops[0], ast.Is):
-                    return "single", True
-                if isinstance(t.ops[0], ast.IsNot):
-                    return "single", False
-            return None, True
+        ok, why = True, ""
+        try:
+            for schedule in ([], [1], [2, 0], [0, 1, 2], [2, 1, 0, 3]):
+                # the awaited part: entries 0..2 (slice 0:3) or entry 2 (single); entry 3 is outside the awaited part
+                for start in ([None, None, None, None], [5, None, None, None], [None, None, 7, None]):
+                    cells = list(start)
+                    store = Store(cells)
+                    polls = []
 
-        got = None
-        brk = False
-        # the wait is reached while the condition holds, and the loop is left when it does not (any branching style)
-        for c in A.calls_in(fn):
-            if A.is_self_attr(c.func, "_do_wait"):
-                for t, pol in G.path_conditions(fn, c):
-                    k_, sense = kind_of(t)
-                    if k_ is not None and pol == sense:
-                        got = k_
-        for n in A.body_nodes(fn):
-            if isinstance(n, ast.Break):
-                for t, pol in G.path_conditions(fn, n):
-                    k_, sense = kind_of(t)
-                    if k_ is not None and k_ == got and pol != sense:
-                        brk = True
-        ctx.check("C12.W", f"{h}:polls-while-{quant}-undefined", got == quant and brk,
-                  f"{h} waits while `{got}` of the entries is None (and breaks otherwise: {brk}); the instruction must wait while {quant} awaited entr{'y is' if quant == 'single' else 'ies are'} undefined", repo.loc(m, fn),
-                  sample={"handler": h, "quantifier": got})
+                    def do_wait(cells=cells, schedule=list(schedule), polls=polls):
+                        polls.append(list(cells))
+                        if not schedule:
+                            raise C.EvalRaise("Deadlock", "nothing more will be delivered")
+                        cells[schedule.pop(0)] = 9
+                        return None
+
+                    sc = C.Scenario()
+                    sc.overrides["_do_wait"] = do_wait
+                    sc.overrides["_expand_array_part"] = lambda app_id=None, array_part=None: (4, slice(0, 3)) if array_part.cls is SLICE else (4, 2)
+                    sc.overrides["_get_array_slice"] = lambda app_id=None, array_slice=None: list(cells[0:3])
+                    sc.overrides["_get_array_entry"] = lambda app_id=None, array_entry=None: cells[2]
+                    o = C.object_from_init(repo, ex, {"_logger": _Log(), "_app_arrays": {1: store}, "_subroutines": {4: C.Obj(None, {"app_id": 1})}, "_program_counters": {4: 0}}, kind="self")
+                    a5 = C.Obj(ADDR, {"address": 4})
+                    instr = C.Obj(None, {"slice": C.Obj(SLICE, {"address": a5, "start": 0, "stop": 3}), "entry": C.Obj(ENTRY, {"address": a5, "index": 2})})
+                    try:
+                        C.Interp(repo, ctx.ev, sc, ex).call_function(m, fn, [], {"subroutine_id": 4, "instr": instr}, self_obj=o)
+                        finished = True
+                    except C.EvalRaise:
+                        finished = False
+
+                    def satisfied(c_):
+                        aw = c_[0:3]
+                        return all(x is not None for x in aw) if quant == "any" else any(x is not None for x in aw) if quant == "all" else c_[2] is not None
+
+                    # replay the schedule: the handler must have polled at exactly the states in which the condition did not hold yet
+                    sim = list(start)
+                    want_polls, sch = [], list(schedule)
+                    want_finished = True
+                    while not satisfied(sim):
+                        want_polls.append(list(sim))
+                        if not sch:
+                            want_finished = False
+                            break
+                        sim[sch.pop(0)] = 9
+                    if polls != want_polls or finished != want_finished:
+                        ok = False
+                        why = f"entries {start} with deliveries {schedule}: polled at {polls}, expected {want_polls}; finished={finished}, expected {want_finished}"
+        except AnalysisError as ex_:
+            ctx.error("C12.W", f"{h} cannot be evaluated: {ex_}")
+            continue
+        ctx.check("C12.W", f"{h}:polls-while-{quant}-undefined", ok,
+                  f"{h} does not wait exactly while {quant} awaited entr{'y is' if quant == 'single' else 'ies are'} undefined ({why})", repo.loc(m, fn),
+                  sample={"handler": h})
 
 
 def check_role_flag(ctx):
